@@ -584,6 +584,8 @@ pub enum DFault {
     ConfigExtreme,
     /// garbage in the stocked buffer (vsock header fuzz, input/sound event fuzz)
     StockedGarbage,
+    /// multi-fault history: a fault of any of the kinds above is drawn at every request, spin round and event
+    Random,
 }
 pub const DFAULTS: [DFault; 14] = [
     DFault::RespAllOnes,
@@ -654,7 +656,12 @@ fn driver_case(d: Drv, f: DFault, kind: TKind, variant: u64, seed: u64) -> CaseO
         if !*armed2.borrow() {
             return (resp, used);
         }
-        match resp_fault {
+        let eff = if resp_fault == DFault::Random {
+            *r2.pick(&[DFault::Random, DFault::Random, DFault::Random, DFault::RespAllOnes, DFault::RespRandom, DFault::UsedLenZero, DFault::UsedLenPlusOne, DFault::UsedLenHuge])
+        } else {
+            resp_fault
+        };
+        match eff {
             DFault::RespAllOnes => {
                 resp = vec![0xff; r.wcap];
                 used = Some(r.wcap as u32);
@@ -677,10 +684,18 @@ fn driver_case(d: Drv, f: DFault, kind: TKind, variant: u64, seed: u64) -> CaseO
         let armed3 = armed.clone();
         let mut fired = false;
         let mut spins = 0u64;
+        let mut fires = 0u32;
+        let mut r3 = Rng::new(seed ^ 0x5151);
         let qs: Vec<u16> = d.queues().iter().copied().filter(|q| !d.stocked_queues().contains(q)).collect();
         hooks::set_spin(move || {
             spins += 1;
             let mut dv = dev2.borrow_mut();
+            let f = if f == DFault::Random && fires < 6 && r3.chance(1, 5) {
+                fired = false;
+                *r3.pick(&[DFault::WrongId, DFault::OutOfRangeId, DFault::IdxJump])
+            } else {
+                f
+            };
             if *armed3.borrow() && !fired && matches!(f, DFault::WrongId | DFault::OutOfRangeId | DFault::IdxJump) {
                 // look at the request queues ourselves
                 dv.manual.extend(qs.iter().copied());
@@ -696,6 +711,7 @@ fn driver_case(d: Drv, f: DFault, kind: TKind, variant: u64, seed: u64) -> CaseO
                             };
                             let _ = s.hostile_complete(id, 8, jump);
                             fired = true;
+                            fires += 1;
                         }
                     }
                 }
@@ -730,6 +746,12 @@ fn driver_case(d: Drv, f: DFault, kind: TKind, variant: u64, seed: u64) -> CaseO
         *armed.borrow_mut() = true;
         // stocked-queue faults: deliver the hostile item first
         let stocked = d.stocked_queues().first().copied();
+        let stocked_faults: Vec<DFault> = if f == DFault::Random {
+            (0..rng.below(4)).map(|_| *rng.pick(&[DFault::StockedLenHuge, DFault::StockedLenZero, DFault::StockedWrongId, DFault::StockedIdxJump, DFault::StockedGarbage, DFault::StockedLenHuge])).collect()
+        } else {
+            vec![f]
+        };
+        for f in stocked_faults {
         if let (Some(sq), true) = (stocked, matches!(f, DFault::StockedLenHuge | DFault::StockedLenZero | DFault::StockedWrongId | DFault::StockedIdxJump | DFault::StockedGarbage)) {
             let mut dv = dev.borrow_mut();
             dv.observe();
@@ -753,8 +775,9 @@ fn driver_case(d: Drv, f: DFault, kind: TKind, variant: u64, seed: u64) -> CaseO
                 }
             }
         }
+        }
         let mut ops = vec![];
-        for round in 0..2 {
+        for round in 0..(if f == DFault::Random { 4 } else { 2 }) {
             let r = catch_unwind(AssertUnwindSafe(|| {
                 let a = drivers::use_briefly(b, &mut ops);
                 let c = drivers::exercise_stocked(b, &dev, &mut ops, offered);
@@ -1039,6 +1062,7 @@ enum Item {
     Driver(usize, DFault, usize, u64),
     Diff(u64),
     Fuzz(u64),
+    DriverFuzz(usize, usize, u64),
 }
 
 fn work(args: &Args) -> Vec<Item> {
@@ -1080,6 +1104,14 @@ fn work(args: &Args) -> Vec<Item> {
     for c in 0..nfuzz {
         w.push(Item::Fuzz(c));
     }
+    if !miri {
+        let ndf = args.scaled(if args.thorough() { 200 } else { 20 });
+        for c in 0..ndf {
+            for (di, _) in drivers::ALL.iter().enumerate() {
+                w.push(Item::DriverFuzz(di, (c % 3) as usize, c));
+            }
+        }
+    }
     w
 }
 
@@ -1092,6 +1124,10 @@ fn run_item(it: Item, seed: u64) -> (CaseOut, String) {
             (driver_case(drivers::ALL[di], f, kinds[ki], v, seed), format!("driver:{}:{:?}:{}:{}", drivers::ALL[di].name(), f, kinds[ki].name(), v))
         }
         Item::Diff(c) => (diff_case(c, seed), format!("diff:{}", c)),
+        Item::DriverFuzz(di, ki, c) => {
+            let kinds = [TKind::Model, TKind::MmioModern, TKind::Pci];
+            (driver_case(drivers::ALL[di], DFault::Random, kinds[ki], c & 3, seed ^ c.wrapping_mul(0x9e3779b97f4a7c15)), format!("driverfuzz:{}:{}:{}", drivers::ALL[di].name(), kinds[ki].name(), c))
+        }
         Item::Fuzz(c) => (fuzz_case(c, seed), format!("fuzz:{}:{}", ["raw2", "raw4", "raw16", "raw1", "owning2", "owning4", "owning8"][(c % 7) as usize], c)),
     }
 }
@@ -1141,6 +1177,7 @@ pub fn run(args: &Args, sh: &mut Shard) {
                 Item::Driver(..) => "cases_driver_level",
                 Item::Diff(..) => "cases_differential_scribble",
                 Item::Fuzz(..) => "cases_multi_fault_random_history",
+                Item::DriverFuzz(..) => "cases_multi_fault_driver_history",
             },
             1,
         );
